@@ -83,7 +83,7 @@ Definition reviewed : list entry := [
   E p1 "ParseSignature" KSlice "sigBytes[g1CompressedSize+frCompressedSize:]" 1 (Modelled 51 "parse_signature: check 51 (len(sigBytes) = 112)");
   E p1 "(*Signature).ToBytes" KSlice "bytes[g1CompressedSize : g1CompressedSize+frCompressedSize]" 1 (FreshLength "bytes := make(.., bls12381SignatureLen); encoder side");
   E p1 "(*Signature).ToBytes" KSlice "bytes[g1CompressedSize+frCompressedSize:]" 1 (FreshLength "bytes := make(.., bls12381SignatureLen); encoder side");
-  E p2 "(*PoKOfSignatureProof).verifyVC2Proof" KIndex "messages[revealedMessagesInd]" 1 (Guarded "VerifyProof rejects len(payload.revealed) > len(messages) (verify_proof check 57) and revealed indexes >= the message count (guard 56); the loop runs over the count generators and advances the index once per distinct revealed index");
+  E p2 "(*PoKOfSignatureProof).verifyVC2Proof" KIndex "messages[revealedMessagesInd]" 1 (Modelled 58 "verify_vc2: check 57 of verify_proof (revealed <= messages); never_panics_E5_verify_vc2");
   E p2 "(*PoKOfSignatureProof).verifyVC2Proof" KIndex "exponents[i]" 1 (Guarded "i < len(basesDisclosed); both slices are appended to together");
   E p2 "ParseSignatureProof" KSlice "sigProofBytes[offset : offset+g1CompressedSize]" 1 (Modelled 53 "parse_signature_proof: check 53 (len >= 3*48), three rounds");
   E p2 "ParseSignatureProof" KSlice "sigProofBytes[offset : offset+4]" 1 (Modelled 53 "parse_signature_proof: check 53 (len >= 3*48+4)");
@@ -94,8 +94,8 @@ Definition reviewed : list entry := [
   E p2 "ParseSignatureProof" KIndex "g1Points[2]" 1 (FreshLength "g1Points := make(.., 3)");
   E p2 "ParseProofG1" KSlice "bytes[:g1CompressedSize]" 1 (Modelled 52 "parse_proof_g1: check 52 (len >= 52)");
   E p2 "ParseProofG1" KSlice "bytes[offset : offset+4]" 1 (Modelled 52 "parse_proof_g1: check 52");
-  E p2 "ParseProofG1" KIndex "responses[i]" 1 (FreshLength "responses := make(.., length), i < length");
-  E p2 "ParseProofG1" KSlice "bytes[offset : offset+frCompressedSize]" 1 (Modelled 52 "parse_proof_g1 / read_responses: check 52 (len >= 52 + n*32)");
+  E p2 "ParseProofG1" KIndex "responses[i]" 2 (FreshLength "responses := make(.., length), i < length (assigned, then read back for the canonical-scalar test of 6fcc1d0)");
+  E p2 "ParseProofG1" KSlice "bytes[offset : offset+frCompressedSize]" 2 (Modelled 52 "parse_proof_g1 / read_responses: check 52 (len >= 52 + n*32); the same range is sliced a second time for the canonical-scalar test of 6fcc1d0");
   E p3 "(*JWEDecrypt).Decrypt" KIndex "recWK[0]" 1 (Guarded "if len(recWK) == 1");
   E p4 "(*JSONWebEncryption).prepareRecipients" KIndex "e.Recipients[0]" 3 (Guarded "switch len(e.Recipients) case 1; serialisation side");
   E p4 "(*JSONWebEncryption).prepareRecipients" KIndex "recipientsToMarshal[i]" 2 (FreshLength "make(.., len(e.Recipients)), i ranges over e.Recipients");
@@ -256,7 +256,7 @@ Definition is_panic_call (s : site) : bool := kind_eqb (s_kind s) KPanic.
 
 (* the dangerous operations of Model.v (the numbers GPanic carries) *)
 Definition model_sites : list N :=
-  [2; 3; 4; 5; 6; 7; 8; 9; 10; 17; 19; 20; 21; 23; 29; 31; 34; 41; 51; 52; 53; 54; 61; 62; 63; 65; 88; 89; 90; 91; 92;
+  [2; 3; 4; 5; 6; 7; 8; 9; 10; 17; 19; 20; 21; 23; 29; 31; 34; 41; 51; 52; 53; 54; 58; 61; 62; 63; 65; 88; 89; 90; 91; 92;
    94; 95; 96; 98; 99; 100; 110]%N.
 Definition names_model_site (e : entry) : bool :=
   match e_why e with Modelled n _ => existsb (N.eqb n) model_sites | _ => true end.
